@@ -578,6 +578,12 @@ func (c *Ctx) oblige(o *Obligation) {
 	}
 	o.CtxLen = len(c.lines)
 	o.Fn = c.fnName
+	// obligation names are unique within a function
+	base := o.Name
+	for i := 2; c.declared["obl:"+o.Name]; i++ {
+		o.Name = fmt.Sprintf("%s@%d", base, i)
+	}
+	c.declared["obl:"+o.Name] = true
 	c.obls = append(c.obls, o)
 }
 
